@@ -289,8 +289,9 @@ def walk_rules(repo):
     got = [x for x in srcw if x in need2]
     if got == need2 and "shuffled_sequences[i, idxs[idx], 0] = 1" in srcw and "idx = 0" in srcw:
         out.append(holds("WALK", fs, role, "; ".join(need2), fs.node))
-    elif "counters[i, char] += 1" not in srcw:
-        out.append(violation("WALK", fs, role, "the consumption counter is never advanced", fs.node))
+    elif not any(x.startswith("counters[") for x in srcw):
+        # true absence: nothing in the walk writes the per-character consumption counter at all
+        out.append(named("WALK", fs, role, "nothing writes `counters[...]`: every step re-reads successor 0 of its character", fs.node))
     else:
         out.append(unrecognised("WALK", fs, role, str(got)))
     role = "the walk visits every shuffle, every character's successor list and every position after the first"
